@@ -47,8 +47,10 @@ HIST_TIERS = {
         dict(tag="W", MaxLen=2, NNames=2, NCheckers=4, ValueIdx=list(range(1, 12)), PreReg=True),
     ],
     "thorough": [
-        dict(tag="A", MaxLen=5, NNames=3, NCheckers=4, ValueIdx=[1, 2, 3, 4, 5, 6], PreReg=False),
-        dict(tag="B", MaxLen=6, NNames=2, NCheckers=3, ValueIdx=[1, 3, 4], PreReg=False),
+        dict(tag="A", MaxLen=4, NNames=3, NCheckers=4, ValueIdx=[1, 2, 3, 4, 5, 6], PreReg=False),
+        dict(tag="A5", MaxLen=5, NNames=2, NCheckers=3, ValueIdx=[1, 3, 4, 5, 6], PreReg=False),
+        dict(tag="B", MaxLen=6, NNames=1, NCheckers=4, ValueIdx=[1, 2, 3, 4], PreReg=False),
+        dict(tag="B2", MaxLen=6, NNames=2, NCheckers=2, ValueIdx=[1, 4], PreReg=False),
         dict(tag="P", MaxLen=4, NNames=1, NCheckers=3, ValueIdx=[1, 3, 11, 4], PreReg=True),
         dict(tag="W", MaxLen=3, NNames=2, NCheckers=4, ValueIdx=list(range(1, 12)), PreReg=True),
         dict(tag="S", MaxLen=10, NNames=3, NCheckers=4, ValueIdx=list(range(1, 12)), PreReg=True,
@@ -226,11 +228,20 @@ def replay_history(st):
                     n0 = len(wlist)
                     kind = _call(el, v)
                     obs.append(dict(cls=cls, base=_baseline(cls, v), kind=kind,
-                                    warned=len(wlist) > n0))
+                                    warned=_relevant(wlist[n0:])))
                 out.append(dict(ev, obs=obs))
     finally:
         _restore(fc, snap)
     return out
+
+
+_NOISE = (DeprecationWarning, PendingDeprecationWarning, ResourceWarning, ImportWarning)
+
+
+def _relevant(ws):
+    """Was a warning produced?  Interpreter/dependency housekeeping categories are not the
+    library telling the user about a format."""
+    return any(not issubclass(w.category, _NOISE) for w in ws)
 
 
 def _builtin_from(snap, checker):
@@ -319,7 +330,7 @@ def gen_batch(batch):
         for st in batch:
             kinds = [_call(_cls(c)(format=st["fmt"]), st["text"]) for c in ("String", "Element")]
             kind = next((k for k in kinds if k != "ok"), "ok")
-            out.append((kind, len(wlist) > 0))
+            out.append((kind, _relevant(wlist)))
             del wlist[:]
     return out
 
